@@ -1,6 +1,6 @@
 From Coq Require Import ZArith List Bool Reals Lra.
 From Flocq Require Import Core BinarySingleNaN.
-Require Import GV.FloatBase GV.FloatLemmas GV.AngleM GV.AngleProofs GV.GeonumM GV.GeonumProofs.
+Require Import GV.FloatBase GV.FloatLemmas GV.AngleM GV.AngleProofs GV.GeonumM GV.GeonumProofs GV.NewProofs GV.CtorProofs GV.PiBounds GV.TrigProofs GV.DotValue GV.DirProofs GV.ProdProofs.
 Open Scope R_scope.
 Require Import GV.Properties.C05.
 Check C05_mul : forall a b,
@@ -44,3 +44,18 @@ Check C05_normalize : forall g,
 Print Assumptions C05_normalize.
 Check C05_pow_mag : forall (L : libm) g n, mag (gpow L g n) = powF L (mag g) n.
 Print Assumptions C05_pow_mag.
+Check C05_assoc : forall a b c, canonp (rem (ang a)) -> canonp (rem (ang b)) -> canonp (rem (ang c)) ->
+  fin (mag (gmul_vv (gmul_vv a b) c)) -> fin (mag (gmul_vv a (gmul_vv b c))) ->
+  Rabs (R_ (mag a)) <= bpow radix2 500 -> Rabs (R_ (mag c)) <= bpow radix2 500 ->
+  Rabs (R_ (mag (gmul_vv (gmul_vv a b) c)) - R_ (mag (gmul_vv a (gmul_vv b c))))
+    <= 5 * / 9007199254740992 * Rabs (R_ (mag a) * R_ (mag b) * R_ (mag c)) + bpow radix2 (-572) /\
+  Rabs (theta (ang (gmul_vv (gmul_vv a b) c)) - theta (ang (gmul_vv a (gmul_vv b c))))
+    <= 4 * (R_ eps10 + / 2251799813685248) /\
+  Rabs (dirR (ang (gmul_vv (gmul_vv a b) c)) - dirR (ang (gmul_vv a (gmul_vv b c))))
+    <= 4 * (R_ eps10 + / 2251799813685248) + 2 / 10000000000000000.
+Print Assumptions C05_assoc.
+Check C05_inv_inv : forall g, canonp (rem (ang g)) -> fin (mag g) ->
+  bpow radix2 (-500) <= R_ (mag g) <= bpow radix2 500 ->
+  exists i r, inv g = Some i /\ inv i = Some r /\
+    Rabs (R_ (mag r) - R_ (mag g)) <= 5 * / 4503599627370496 * R_ (mag g) /\ steps_to (ang g) (ang r) 4.
+Print Assumptions C05_inv_inv.
